@@ -462,7 +462,25 @@ def coq_check_cases(cases, tag, checker="check_case", per_shard=None, timeout=15
         return []
     if per_shard is None:
         per_shard = max(1, min(400, (n + NCPU - 1) // NCPU))
-    shards = [cases[i:i + per_shard] for i in range(0, n, per_shard)]
+    # balance the shards by estimated cost (longest-processing-time first): the cost of a case grows with its number of
+    # operations and, for the exact instance, with the period (window scans / big rationals)
+    nsh = max(1, (n + per_shard - 1) // per_shard)
+    def cost(c):
+        p = c.meta.get("p", 1) if isinstance(c.meta, dict) else 1
+        try:
+            p = max(1, int(p))
+        except (TypeError, ValueError):
+            p = 1
+        return len(c.ops) * (1 + (p if checker != "check_case" else 0) / 16.0)
+    order = sorted(range(n), key=lambda i: -cost(cases[i]))
+    bins = [[] for _ in range(nsh)]
+    load = [0.0] * nsh
+    for i in order:
+        k = min(range(nsh), key=lambda q: (load[q], q))
+        bins[k].append(i)
+        load[k] += cost(cases[i])
+    bins = [sorted(b) for b in bins if b]
+    shards = [[cases[i] for i in b] for b in bins]
 
     def run(k_sh):
         k, sh_cases = k_sh
@@ -478,11 +496,12 @@ def coq_check_cases(cases, tag, checker="check_case", per_shard=None, timeout=15
 
     with ThreadPoolExecutor(max_workers=NCPU) as ex:
         res = list(ex.map(run, enumerate(shards)))
-    flat = []
-    for sh_cases, nums in zip(shards, res):
-        if len(nums) != len(sh_cases):
-            raise BuildError("coq result count mismatch (%d vs %d)" % (len(nums), len(sh_cases)))
-        flat.extend(nums)
+    flat = [None] * n
+    for b, nums in zip(bins, res):
+        if len(nums) != len(b):
+            raise BuildError("coq result count mismatch (%d vs %d)" % (len(nums), len(b)))
+        for i, v in zip(b, nums):
+            flat[i] = v
     return flat
 
 
